@@ -60,7 +60,7 @@ def compare(ctx, g, gtext, s, cfg, rep, sample=False, skel=None):
     if key not in _mm_cache:
         if len(_mm_cache) > 50:
             _mm_cache.clear()
-        _mm_cache[key] = (metamodel_from_str(gtext, autokwd=False, **cfg), metamodel_from_str(gtext, autokwd=True, **cfg))
+        _mm_cache[key] = (P.make_mm(gtext, autokwd=False, **cfg), P.make_mm(gtext, autokwd=True, **cfg))
     mm_off, mm_on = _mm_cache[key]
     cfg_off = dict(cfg, autokwd=False)
     cfg_on = dict(cfg, autokwd=True)
